@@ -7,6 +7,15 @@ TRUST = ('rustc MIR construction + type checker (nightly 1.97), the mirfacts dri
          '(lint/extern_models.py), dependency crates not analysed; see DESIGN.md 2.1')
 
 CLAIMS = {
+ 'C14': dict(
+    text='Static, all operation histories: decides the EFFECT DISCIPLINE of the bit reader, not the delivered bit values. A: bits_read is assigned only in '
+         'skip_bits (dominated by the success of ensure_bits(n), adding exactly n), rollback and commit; buffer only grows in buffer_bytes and shrinks in commit; '
+         'peek_bits/peek_signed_bits have bits_read outside their mod set. B/T4: look-ahead and transactions restore the checkpoint on exactly the right paths. '
+         'C: read_bits/read_signed_bits are peek(n) then skip(n) with one n. E: structural forms of realignment_bits, needed_bytes_for_bits, ensure_bits, commit, '
+         'rollback guard and two\'s-complement sign extension. F: start-code scan (17-bit window == 1, one bit per step, nearest first, bounded by realignment_bits). '
+         'G: VLC walk consumes one bit per step and all 6 tables are acyclic/in range/fully reachable (folded from const MIR). NOT decided: MSB-first assembly in '
+         'the peek_bits byte loop; exactly-once delivery as a history property follows from A-G only under that assumption.',
+    technique='mod/ref effect analysis, dominance/control-dependence rules, def-use expression pattern matching, const-table folding', ref='6/C14'),
  'C15': dict(
     text='Static, all inputs: where the reader stands after a successful decode is decided on the MIR of the decode closure. M7 the macroblock loop has '
          'an exit, dominating the macroblock parse, that fires when len(macroblock vector) >= mb_per_line*mb_height (found D1: absent; fixed); RS the '
